@@ -563,12 +563,12 @@ func plansC15(thorough bool) []Plan {
 		// materialised by fakeeth: k = depth-1, depth, depth+1 and request range + 1, after fork switches
 		// that were seen only as a step back or a head of the same height; all three syncers with the
 		// constants 10 / 10000 (chains of up to 10 000+ real blocks)
-		{Name: "gap-const", MaxBlocks: 4, MaxNum: 3, MaxLeaves: 2, MaxEvents: 2, Keys: []string{"k1", "k2"}, NoBad: true,
+		{Name: "gap-const", MaxBlocks: 4, MaxNum: 3, MaxLeaves: 2, MaxEvents: d(1, 2), Keys: []string{"k1", "k2"}, NoBad: true,
 			D: constDepth, MaxR: constRange, Start0: 1, Precond: "depth", FKinds: []string{"db"}, GapSet: []int{constDepth - 1, constDepth, constDepth + 1, constRange + 1}, MaxRuns: 1,
 			Flavors: []string{FlRegistry, FlSequencer, FlMulti}, Stretch: 1, MaxBeh: d(120, 1000), EnumEvery: d(8, 4)},
 		// the same with the MultiEventSyncer's settable constants (depth 2, range 4), two runs
-		{Name: "gap-multi", MaxBlocks: 4, MaxNum: 3, MaxLeaves: 2, MaxEvents: 2, Keys: []string{"k1", "k2"}, NoBad: true,
-			D: 2, MaxR: 4, Start0: 1, Precond: "depth", FKinds: []string{"db"}, GapSet: []int{2, 3, 5}, MaxRuns: 2,
+		{Name: "gap-multi", MaxBlocks: 4, MaxNum: 3, MaxLeaves: 2, MaxEvents: d(1, 2), Keys: []string{"k1", "k2"}, NoBad: true,
+			D: 2, MaxR: 4, Start0: 1, Precond: "depth", FKinds: []string{"db"}, GapSet: []int{2, 3, 5}, MaxRuns: 1,
 			Flavors: []string{FlMulti}, Stretch: 1, MaxBeh: d(200, 2000), EnumEvery: d(8, 4)},
 		// exhaustive, the constants of the two other syncers (depth 10, one range): every reorg rolls back to 0
 		{Name: "const-d10-small", MaxBlocks: d(5, 6), MaxNum: 4, MaxLeaves: 2, MaxEvents: 2, Keys: []string{"k1", "k2"},
